@@ -599,3 +599,77 @@ pub fn big_runs(prop: &'static str, seed: u64) -> BigRuns {
     });
     res.into_inner().unwrap()
 }
+
+// ------------------------------------------------------------------ drop-count sweep
+/// Streams: for a join with F predecessors (F = 130, 260; forward and, mirrored,
+/// reverse) every number k = 1..F of `FnRef`s is dropped between two polls once,
+/// the rest one at a time.  Whatever batch size, budget or drain limit the stream
+/// code uses internally, some k hits it exactly.
+pub fn drop_sweep(prop: &'static str) -> BigRuns {
+    use crate::gen::{Api, Strat};
+    use crate::model::{Kind, TestFn};
+    use std::sync::Mutex;
+    let res: Mutex<BigRuns> = Mutex::new(BigRuns { runs: 0, max_n: 0, violation: None, samples: vec![], hashes: vec![] });
+    std::thread::scope(|sc| {
+        for (fan, rev) in [(130usize, false), (260, false), (130, true), (260, true)] {
+            let res = &res;
+            sc.spawn(move || {
+                let n = fan + 2;
+                let fns: Vec<TestFn> = (0..n).map(|id| TestFn { id, reads: vec![], writes: vec![] }).collect();
+                // forward: roots 0..fan -> join (fan) -> tail (fan+1); the reverse case
+                // streams the mirrored graph in reverse order
+                let edges: Vec<(usize, usize, Kind)> = if !rev {
+                    (0..fan).map(|i| (i, fan, Kind::Logic)).chain([(fan, fan + 1, Kind::Contains)]).collect()
+                } else {
+                    (0..fan).map(|i| (fan, i, Kind::Logic)).chain([(fan + 1, fan, Kind::Contains)]).collect()
+                };
+                let spec = GraphSpec { fns, edges, batches: vec![] };
+                let g0 = crate::model::build_graph(&spec);
+                let facts = crate::model::GraphFacts::new(&spec, &g0);
+                let cfg = RunCfg {
+                    api: Api { shape: Shape::Stream, with: true },
+                    rev,
+                    limit: None,
+                    strat: Strat::NonInterruptible,
+                    include: true,
+                    failing: vec![],
+                    yields: vec![0; n],
+                    abort_after: None,
+                    instant: vec![],
+                    coop: false,
+                    drop_sender: false,
+                    pre_interrupted: 0,
+                    on_clone: false,
+                    unwind: vec![],
+                    rev_again: 0,
+                    opts_order: 0,
+                };
+                for k in 1..=fan {
+                    // poll until the stream is pending with all `fan` FnRefs held, drop k of
+                    // them without polling, poll once, then the default policy finishes
+                    let mut acts: Vec<Act> = vec![Act::Poll; fan + 1];
+                    acts.extend((0..k).map(Act::Complete));
+                    acts.push(Act::Poll);
+                    let mut g = g0.clone();
+                    let r = crate::cases::run_on(&mut g, facts.clone(), &cfg, Schedule::Replay(&acts));
+                    let viol = r.violations.iter().find(|v| v.prop == prop).cloned();
+                    let mut out = res.lock().unwrap();
+                    out.runs += 1;
+                    out.max_n = out.max_n.max(n);
+                    if k % 64 == 0 {
+                        out.hashes.push(hash_of(&(fan, rev, k)));
+                    }
+                    if out.violation.is_none() {
+                        if let Some(mut v) = viol {
+                            v.msg = format!("join with {fan} predecessors ({}), {k} FnRefs dropped between two polls: {}", if rev { "reverse" } else { "forward" }, v.msg);
+                            let case = SingleCase { spec: spec.clone(), cfg: cfg.clone(), acts: r.acts.clone(), pre: None };
+                            out.violation = Some((v, case));
+                            return;
+                        }
+                    }
+                }
+            });
+        }
+    });
+    res.into_inner().unwrap()
+}
